@@ -113,26 +113,13 @@ func (f *Field) getArg(name string) (av *ArgValue) {
 	return
 }
 
-func (f *Field) sortArgs() (errors []error) {
-	if 0 < len(f.Args) {
-		var fd *FieldDef
-		switch ct := f.ConType.(type) {
-		case *Object:
-			fd = ct.fields.get(f.Name)
-		case *Interface:
-			fd = ct.fields.get(f.Name)
-		}
-		if fd != nil {
-			args := make([]*ArgValue, 0, len(f.Args))
-			for _, a := range fd.args.list {
-				args = append(args, f.getArg(a.N))
-			}
-			for _, av := range f.Args {
-				if fd.getArg(av.Arg) == nil {
-					errors = append(errors, valError(av.line, av.col, "%s is not an argument to %s", av.Arg, f.Name))
-				}
-			}
-			f.Args = args
+// checkArgs reports the arguments given that are not arguments of the field
+// definition. The field is shared by all the objects it is resolved on and by
+// all the resolves of the executable so it is not modified.
+func (f *Field) checkArgs(fd *FieldDef) (errors []error) {
+	for _, av := range f.Args {
+		if fd.getArg(av.Arg) == nil {
+			errors = append(errors, valError(av.line, av.col, "%s is not an argument to %s", av.Arg, f.Name))
 		}
 	}
 	return
